@@ -106,6 +106,22 @@ CLAIMED["C13"] = (
     "Lean 4 proof (lookup order, longest-prefix, policy automata by induction over histories) with translated constants and correspondence",
     "DESIGN.md §5 C13, §10.2")
 
+CLAIMED["C17"] = (
+    "Lean 4 theorems over a transcription of AdaptationManager._adapt (offer buckets as register_offer builds them, applicable "
+    "offers, the cmp_to_key ordering with CPython's list.sort for < 64 items, the priority queue keyed (adapters, MRO distance, "
+    "counter) as a sorted list with a proved heap-equivalence, offer-not-in-path, arrival test, failing factories) and of the C "
+    "validate_trait_adapt modes: identity, soundness of every returned chain (for arbitrary, even ordinal-dependent or raising "
+    "factories), completeness (notFound iff no valid chain whose factories all succeed; determinism of factories is a stated "
+    "hypothesis shown necessary by a witness), minimal adapter count, one-step specificity by MRO distance, default/"
+    "AdaptationError, Supports/AdaptsTo modes, and termination (fuel sufficiency with an explicit measure). Departures of the "
+    "code are explicit hypotheses with proved negation witnesses and known findings (F14 intransitive specificity comparison, "
+    "F15 None adaptee, F16 bucket key collision). Correspondence: real AdaptationManager instances on generated hierarchies "
+    "(single/multiple inheritance, ABC registration, Interfaces) vs the model, with a brute-force chain enumeration as oracle.",
+    "Trusted: Lean kernel, standard axioms; issubclass/MRO tables come from CPython (sent as data, re-checked against the real "
+    "classes); the list.sort and heapq models are validated by dedicated streams; lazy import_symbol of protocol names not modelled; harness.",
+    "Lean 4 proof (queue invariant: soundness, completeness, minimality, termination) with model-code correspondence and brute-force oracle",
+    "DESIGN.md §5 C17, §10.2")
+
 NOT_YET = "check not built yet in this round (planned in DESIGN.md §9); not claimed until it exists"
 
 
